@@ -102,17 +102,12 @@ Section Infer.
 End Infer.
 
 (* ---- soundness ---- *)
-Section Sound.
+Section Level.
   Variable cx : ctx.
-  Variable usig : utag -> list vty * vty.
-  Variable table : list (N * adef).
+  Variable loud : bool.
   Notation valid := (valid cx).
-  Notation has_type := (has_type cx).
-  Notation typed_triple := (typed_triple cx).
-
-  (* what has to be shown about the hand-written user actions *)
-  Hypothesis user_typed : forall u vs,
-    Forall2 has_type (fst (usig u)) vs -> has_type (snd (usig u)) (fst (user_fn u cx vs)).
+  Notation has_type := (has_type cx loud).
+  Notation typed_triple := (typed_triple cx loud).
 
   Lemma all_some_spec {A} (l : list (option A)) r : all_some l = Some r -> Forall2 (fun o x => o = Some x) l r.
   Proof.
@@ -162,7 +157,7 @@ Section Sound.
     - (* GVecOne *) inversion H; subst. inversion F as [|? v1 ? vr T1 Fr]; subst. inversion Fr; subst. cbn. auto.
     - (* GPush: one type *) destruct t1; discriminate.
     - (* GPush *)
-      destruct t1 as [| | | | | |a| | | |]; try discriminate.
+      destruct t1 as [| | | | | | | |a| | | |]; try discriminate.
       apply push_type in H as [u [-> [Ha He]]].
       inversion F as [|? v1 ? vr T1 Fr]; subst. inversion Fr as [|? v2 ? vr2 T2 Fr2]; subst. inversion Fr2; subst.
       destruct v1; try contradiction. apply has_type_vec in T1. cbn [run_glue vec_push]. apply has_type_vec.
@@ -170,7 +165,7 @@ Section Sound.
     - (* GPush: three types *) destruct t1; try discriminate.
     - (* GPushOpt: one type *) destruct t1; discriminate.
     - (* GPushOpt *)
-      destruct t1 as [| | | | | |a| | | |]; try discriminate. destruct t2 as [| | | | |e| | | | |]; try discriminate.
+      destruct t1 as [| | | | | | | |a| | | |]; try discriminate. destruct t2 as [| | | | | |e| | | | | |]; try discriminate.
       apply push_type in H as [u [-> [Ha He]]].
       inversion F as [|? v1 ? vr T1 Fr]; subst. inversion Fr as [|? v2 ? vr2 T2 Fr2]; subst. inversion Fr2; subst.
       destruct v1; try contradiction. apply has_type_vec in T1.
@@ -229,40 +224,58 @@ Section Sound.
     - apply (G atys args i Fa H). - apply (G ttys temps j Ft H). - apply (G atys args i Fa H). - apply (G ttys temps j Ft H).
   Qed.
 
+End Level.
+
+Section Sound.
+  Variable cx : ctx.
+  Variable usig : utag -> list vty * vty.
+  Variable table : list (N * adef).
+  Notation valid := (valid cx).
+
+  (* what has to be shown about the hand-written user actions: typed arguments give a typed result, at the level
+     raised by whatever Error the action itself pushed *)
+  Hypothesis user_typed : forall loud u vs,
+    Forall2 (has_type cx loud) (fst (usig u)) vs ->
+    has_type cx (loud || errb (snd (user_fn u cx vs))) (snd (usig u)) (fst (user_fn u cx vs)).
+
   Definition afun_sound (f : afun) (af : list vty -> option vty) : Prop :=
-    forall tys t lb la args, af tys = Some t -> valid lb -> valid la -> Forall2 typed_triple tys args ->
-      has_type t (fst (f cx lb la args)).
+    forall loud tys t lb la args, af tys = Some t -> valid lb -> valid la -> Forall2 (typed_triple cx loud) tys args ->
+      has_type cx (loud || errb (snd (f cx lb la args))) t (fst (f cx lb la args)).
 
   Lemma run_steps_sound (call : N -> afun) (acall : N -> list vty -> option vty) :
     (forall n, afun_sound (call n) (acall n)) ->
-    forall steps atys args lb la, Forall2 typed_triple atys args -> valid lb -> valid la ->
-    forall ttys temps ds ttys', Forall2 typed_triple ttys temps ->
+    forall steps loud atys args lb la, Forall2 (typed_triple cx loud) atys args -> valid lb -> valid la ->
+    forall ttys temps ds ttys', Forall2 (typed_triple cx (loud || errb ds)) ttys temps ->
       arun_steps acall atys ttys steps = Some ttys' ->
-      Forall2 typed_triple ttys' (fst (run_steps call cx lb la args temps steps ds)).
+      Forall2 (typed_triple cx (loud || errb (snd (run_steps call cx lb la args temps steps ds)))) ttys'
+              (fst (run_steps call cx lb la args temps steps ds)).
   Proof.
-    intros Hc steps atys args lb la Fa Hlb Hla.
+    intros Hc steps loud atys args lb la Fa Hlb Hla.
     induction steps as [|s rest IH]; intros ttys temps ds ttys' Ft H; cbn [arun_steps run_steps] in *.
     - inversion H; subst. exact Ft.
     - destruct (aloc_ok (length atys) (length ttys) (ws_start s) && aloc_ok (length atys) (length ttys) (ws_end s)) eqn:L; [|discriminate].
       apply andb_true_iff in L as [L1 L2].
-      pose proof (aloc_sound _ _ _ _ _ _ _ Fa Ft Hlb Hla L1) as V1.
-      pose proof (aloc_sound _ _ _ _ _ _ _ Fa Ft Hlb Hla L2) as V2.
+      pose proof (Forall2_typed_lift cx loud (errb ds) _ _ Fa) as Fa'.
+      pose proof (aloc_sound _ _ _ _ _ _ _ _ _ Fa' Ft Hlb Hla L1) as V1.
+      pose proof (aloc_sound _ _ _ _ _ _ _ _ _ Fa' Ft Hlb Hla L2) as V2.
       set (st := evalloc args temps lb la (ws_start s)) in *. set (en := evalloc args temps lb la (ws_end s)) in *.
       destruct (ws_args s) as [l|] eqn:A.
       + destruct (all_some (map (agetarg atys ttys) l)) as [ts|] eqn:G; [|discriminate].
         destruct (acall (ws_callee s) ts) as [t|] eqn:C; [|discriminate].
-        pose proof (Hc (ws_callee s) ts t lb la (map (getarg args temps) l) C Hlb Hla (agetargs_sound _ _ _ _ _ _ Fa Ft G)) as T.
-        destruct (call (ws_callee s) cx lb la (map (getarg args temps) l)) as [v d]. cbn [fst] in T.
+        pose proof (Hc (ws_callee s) _ ts t lb la (map (getarg args temps) l) C Hlb Hla (agetargs_sound _ _ _ _ _ _ _ _ Fa' Ft G)) as T.
+        destruct (call (ws_callee s) cx lb la (map (getarg args temps) l)) as [v d]. cbn [fst snd] in T.
         apply IH with (ttys := ttys ++ [t]); [|exact H].
-        apply Forall2_app; [exact Ft|]. constructor; [|constructor]. repeat split; assumption.
+        rewrite errb_app, orb_assoc.
+        apply Forall2_app; [apply Forall2_typed_lift; exact Ft|]. constructor; [|constructor]. split; [exact V1|split; [exact V2|exact T]].
       + destruct (acall (ws_callee s) []) as [t|] eqn:C; [|discriminate].
-        pose proof (Hc (ws_callee s) [] t st en [] C V1 V2 (Forall2_nil _)) as T.
-        destruct (call (ws_callee s) cx st en []) as [v d]. cbn [fst] in T.
+        pose proof (Hc (ws_callee s) (loud || errb ds) [] t st en [] C V1 V2 (Forall2_nil _)) as T.
+        destruct (call (ws_callee s) cx st en []) as [v d]. cbn [fst snd] in T.
         apply IH with (ttys := ttys ++ [t]); [|exact H].
-        apply Forall2_app; [exact Ft|]. constructor; [|constructor]. repeat split; assumption.
+        rewrite errb_app, orb_assoc.
+        apply Forall2_app; [apply Forall2_typed_lift; exact Ft|]. constructor; [|constructor]. split; [exact V1|split; [exact V2|exact T]].
   Qed.
 
-  Lemma typed_not_panic ttys temps : Forall2 typed_triple ttys temps -> existsb (fun t => is_panic (tval t)) temps = false.
+  Lemma typed_not_panic loud ttys temps : Forall2 (typed_triple cx loud) ttys temps -> existsb (fun t => is_panic (tval t)) temps = false.
   Proof.
     induction 1 as [|t x ttys temps [_ [_ T]] F IH]; [reflexivity|]. cbn. rewrite IH, orb_false_r.
     destruct (tval x); try reflexivity. exfalso. eapply has_type_not_panic; exact T.
@@ -271,25 +284,27 @@ Section Sound.
   Lemma run_wrapper_sound (call : N -> afun) (acall : N -> list vty -> option vty) w :
     (forall n, afun_sound (call n) (acall n)) -> afun_sound (run_wrapper call w) (arun_wrapper acall w).
   Proof.
-    intros Hc tys t lb la args H Hlb Hla Fa. unfold arun_wrapper in H. unfold run_wrapper.
+    intros Hc loud tys t lb la args H Hlb Hla Fa. unfold arun_wrapper in H. unfold run_wrapper.
     rewrite <- (Forall2_length _ _ _ Fa).
     destruct (Nat.eqb (length tys) (w_nargs w)); [|discriminate].
     destruct (arun_steps acall tys [] (w_steps w)) as [ttys|] eqn:S; [|discriminate].
-    pose proof (run_steps_sound call acall Hc (w_steps w) tys args lb la Fa Hlb Hla [] [] [] ttys (Forall2_nil _) S) as Ft.
-    destruct (run_steps call cx lb la args [] (w_steps w) []) as [temps ds]. cbn [fst] in Ft.
-    rewrite (typed_not_panic _ _ Ft).
+    pose proof (run_steps_sound call acall Hc (w_steps w) loud tys args lb la Fa Hlb Hla [] [] [] ttys (Forall2_nil _) S) as Ft.
+    destruct (run_steps call cx lb la args [] (w_steps w) []) as [temps ds]. cbn [fst snd] in Ft.
+    rewrite (typed_not_panic _ _ _ Ft).
     destruct (all_some (map (agetarg tys ttys) (w_final_args w))) as [ts|] eqn:G; [|discriminate].
-    pose proof (Hc (w_final w) ts t lb la (map (getarg args temps) (w_final_args w)) H Hlb Hla (agetargs_sound _ _ _ _ _ _ Fa Ft G)) as T.
-    destruct (call (w_final w) cx lb la (map (getarg args temps) (w_final_args w))) as [v d]. exact T.
+    pose proof (Forall2_typed_lift cx loud (errb ds) _ _ Fa) as Fa'.
+    pose proof (Hc (w_final w) _ ts t lb la (map (getarg args temps) (w_final_args w)) H Hlb Hla (agetargs_sound _ _ _ _ _ _ _ _ Fa' Ft G)) as T.
+    destruct (call (w_final w) cx lb la (map (getarg args temps) (w_final_args w))) as [v d]. cbn [fst snd] in T |- *.
+    rewrite errb_app, orb_assoc. exact T.
   Qed.
 
   (* the main soundness theorem of the analysis *)
   Theorem ainfer_sound fuel : forall n, afun_sound (eval_action table fuel n) (ainfer usig table fuel n).
   Proof.
-    induction fuel as [|fuel IH]; intros n tys t lb la args H Hlb Hla Fa; cbn [ainfer eval_action] in *; [discriminate|].
+    induction fuel as [|fuel IH]; intros n loud tys t lb la args H Hlb Hla Fa; cbn [ainfer eval_action] in *; [discriminate|].
     destruct (lookup_action n table) as [[g nargs idx|u nargs idx|w]|] eqn:L; try discriminate.
     - rewrite <- (Forall2_length _ _ _ Fa). destruct (Nat.eqb (length tys) nargs); [|discriminate].
-      destruct (tys_at tys idx) as [ts|] eqn:T; [|discriminate]. cbn [fst].
+      destruct (tys_at tys idx) as [ts|] eqn:T; [|discriminate]. cbn [fst snd errb existsb]. rewrite orb_false_r.
       eapply aglue_sound; eauto. eapply tys_at_vals; eauto.
     - rewrite <- (Forall2_length _ _ _ Fa). destruct (Nat.eqb (length tys) nargs); [|discriminate].
       destruct (tys_at tys idx) as [ts|] eqn:T; [|discriminate].
